@@ -191,10 +191,10 @@ theorem C17_build_port_range (e : Env) (a : BuildArgs) (u : Url) (henc : a.encod
 
 /-! ### rejected `port=` arguments -/
 
-/-- which error a bad `port=` raises.  EXACT PRECEDENCE: the authority-conflict check comes first (and a
-    `port` of the wrong type counts as "truthy" there), then the type check, then the range check:
+/-- which error a bad `port=` raises.  EXACT PRECEDENCE: the authority-conflict check comes first (it
+    tests `port is not None`: ANY given port counts there), then the type check, then the range check:
     * a bool / non-int port: `ValueError` if `authority=` is given as well, else `TypeError`;
-    * an int out of range: `ValueError` in every case (an out-of-range int is non-zero, so with
+    * an int out of range: `ValueError` in every case (with
       `authority=` the conflict check already raises `ValueError`) — the hypothesis "no authority
       conflict" of the request is not needed. -/
 theorem C17_build_port_rejects (e : Env) (a : BuildArgs) :
@@ -230,13 +230,12 @@ theorem C17_build_port_rejects (e : Env) (a : BuildArgs) :
     simp only at hk hp
     subst hk hp
     have hnr : ¬ (0 ≤ p ∧ p ≤ 65535) := by omega
-    have hp0 : p ≠ 0 := by omega
     unfold build
     by_cases ha : authority = []
     · subst ha
       simp [hnr]
     · have hne : authority.isEmpty = false := isEmpty_false_of_ne ha
-      simp [hne, hp0]
+      simp [hne]
 
 /-! ### constructor results -/
 
